@@ -19,11 +19,15 @@ fn how_name(h: How) -> &'static str {
     }
 }
 
-/// Is this configuration inside the round-trip domain the properties quantify over?
+/// Is this configuration inside the round-trip domain the properties quantify over, *and*
+/// representable according to the model (used where the model's image is the source of truth)?
 pub fn in_domain(cfg: &Cfg) -> bool {
-    if !repr::violations(cfg).is_empty() {
-        return false;
-    }
+    repr::violations(cfg).is_empty() && in_rfc_domain(cfg)
+}
+
+/// The kinds and shapes C02–C05 speak about. Whether the configuration is *accepted* is decided by
+/// the builder itself ("every ... that the builder accepts"), not by the model.
+pub fn in_rfc_domain(cfg: &Cfg) -> bool {
     match cfg {
         // the properties speak of non-zero item types
         Cfg::Sdes { chunks, .. } => chunks.iter().all(|c| c.items.iter().all(|i| i.type_ != 0)),
@@ -41,7 +45,7 @@ pub fn in_domain(cfg: &Cfg) -> bool {
 /// The round-trip oracle on one configuration.
 pub fn check(ctx: &mut Ctx, cfg: &Cfg, how: How) {
     let _case = crate::watchdog::case_cfg("roundtrip", cfg, how);
-    if !in_domain(cfg) {
+    if !in_rfc_domain(cfg) {
         ctx.class("skipped:out-of-domain");
         return;
     }
@@ -49,10 +53,22 @@ pub fn check(ctx: &mut Ctx, cfg: &Cfg, how: How) {
     ctx.eval();
     let kind = cfg.kind_name();
     let case = || cfg_case("roundtrip", cfg, how);
+    // The properties quantify over what the *builder* accepts. When the model says the
+    // configuration is not representable and the builder accepts it anyway, the round trip is
+    // still owed; the violated rule(s) become part of the signature.
+    let viol = repr::violations(cfg);
+    let unrep: String = if viol.is_empty() {
+        String::new()
+    } else {
+        let mut names: Vec<&str> = viol.iter().map(|r| r.name()).collect();
+        names.sort();
+        names.dedup();
+        format!(";accepted-although:{}", names.join("+"))
+    };
     let bytes = match build_bytes(cfg, how) {
         Ok(b) => b,
         Err(WOut::Err(e)) => {
-            // the builder rejected a representable configuration: C16's business, not ours
+            // the builder rejected the configuration: whether rightly is C16's business, not ours
             ctx.class_dyn(format!("builder-rejected:{kind}:{}", crate::drive::variant_name(&format!("{e:?}"))));
             return;
         }
@@ -60,7 +76,7 @@ pub fn check(ctx: &mut Ctx, cfg: &Cfg, how: How) {
             ctx.violate(
                 "serialise",
                 kind,
-                &other.class(),
+                &format!("{}{unrep}", other.class()),
                 case,
                 "an accepted configuration serialises (write_into returns Ok(calculate_size))",
                 format!("write_into gives {}", other.render()),
@@ -69,12 +85,15 @@ pub fn check(ctx: &mut Ctx, cfg: &Cfg, how: How) {
         }
     };
     ctx.class_dyn(format!("built:{kind}:{}:{}", if cfg.padding() > 0 { "padded" } else { "unpadded" }, how_name(how)));
+    if !viol.is_empty() {
+        ctx.class_dyn(format!("built-although-unrepresentable:{kind}{unrep}"));
+    }
     let data = crate::drive::exact(&bytes);
     match parse_typed(ty, &data) {
         Err(p) => ctx.violate(
             "parse-back",
             kind,
-            &format!("panic@{}", crate::drive::site_file(&p.site)),
+            &format!("panic@{}{unrep}", crate::drive::site_file(&p.site)),
             case,
             "the matching parser accepts the bytes and every accessor returns",
             format!("panic at {}: {} (bytes {})", crate::drive::short_site(&p.site), p.msg, crate::json::hex(&bytes[..bytes.len().min(80)])),
@@ -82,7 +101,7 @@ pub fn check(ctx: &mut Ctx, cfg: &Cfg, how: How) {
         Ok(Err(e)) => ctx.violate(
             "parser-accepts",
             kind,
-            crate::drive::variant_name(&format!("{e:?}")),
+            &format!("{}{unrep}", crate::drive::variant_name(&format!("{e:?}"))),
             case,
             "the matching parser accepts the bytes the builder wrote",
             format!("{}::parse fails with {e:?} on {}", ty.name(), crate::json::hex(&bytes[..bytes.len().min(80)])),
@@ -93,7 +112,7 @@ pub fn check(ctx: &mut Ctx, cfg: &Cfg, how: How) {
                 ctx.violate(
                     "padding",
                     kind,
-                    "padding-accessor",
+                    &format!("padding-accessor{unrep}"),
                     case,
                     format!("padding() == {want_pad:?}"),
                     format!("padding() == {:?}", parsed.padding),
@@ -106,7 +125,7 @@ pub fn check(ctx: &mut Ctx, cfg: &Cfg, how: How) {
                 ctx.violate(
                     "content",
                     kind,
-                    &field,
+                    &format!("{field}{unrep}"),
                     case,
                     "the parsed view reports exactly what was configured",
                     format!("{why} (bytes {})", crate::json::hex(&bytes[..bytes.len().min(80)])),
@@ -170,7 +189,8 @@ pub fn run_c02(ctx: &mut Ctx, shard: usize, nshards: usize) {
     let n = ctx.n(if ctx.thorough { 400_000 } else { 12_000 });
     let mut s = Src::prng(mix(ctx.seed, 0xc02 + shard as u64));
     for i in 0..n {
-        let c = if i % 2 == 0 { cfgs::sr(&mut s, Mix::Valid) } else { cfgs::rr(&mut s, Mix::Valid) };
+        let m = if i % 4 >= 2 { Mix::Limit } else { Mix::Valid };
+        let c = if i % 2 == 0 { cfgs::sr(&mut s, m) } else { cfgs::rr(&mut s, m) };
         check(ctx, &c, hows(i));
     }
 }
@@ -321,8 +341,24 @@ pub fn run_c03(ctx: &mut Ctx, shard: usize, nshards: usize) {
     let n = ctx.n(if ctx.thorough { 400_000 } else { 12_000 });
     let mut s = Src::prng(mix(ctx.seed, 0xc03 + shard as u64));
     for i in 0..n {
-        let c = cfgs::sdes(&mut s, Mix::Valid);
+        let c = cfgs::sdes(&mut s, if i % 4 == 3 { Mix::Limit } else { Mix::Valid });
         check(ctx, &c, hows(i));
+    }
+    large_and_oversize(ctx, shard, nshards, "sdes");
+}
+
+/// Images beyond 65 535 bytes, and one configuration beyond the 65 536-word limit per kind that can
+/// reach it (the builder is the judge of acceptance; what it accepts must come back).
+fn large_and_oversize(ctx: &mut Ctx, shard: usize, nshards: usize, kind_prefix: &str) {
+    if ctx.scale < 0.5 {
+        return;
+    }
+    let mut all = crate::mon::writers::large_cfgs();
+    all.extend(crate::mon::writers::oversize_cfgs());
+    for (k, c) in all.into_iter().enumerate() {
+        if k % nshards == shard && c.kind_name().starts_with(kind_prefix) {
+            check(ctx, &c, hows(k));
+        }
     }
 }
 
@@ -407,9 +443,11 @@ pub fn run_c04(ctx: &mut Ctx, shard: usize, nshards: usize) {
     let n = ctx.n(if ctx.thorough { 300_000 } else { 12_000 });
     let mut s = Src::prng(mix(ctx.seed, 0xc04 + shard as u64));
     for i in 0..n {
-        let c = if i % 2 == 0 { cfgs::bye(&mut s, Mix::Valid) } else { cfgs::app(&mut s, Mix::Valid) };
+        let m = if i % 4 >= 2 && i % 8 >= 4 { Mix::Limit } else { Mix::Valid };
+        let c = if i % 2 == 0 { cfgs::bye(&mut s, m) } else { cfgs::app(&mut s, m) };
         check(ctx, &c, hows(i));
     }
+    large_and_oversize(ctx, shard, nshards, "app");
 }
 
 pub fn floor_c04(ctx: &Ctx) -> Vec<(String, bool)> {
@@ -524,9 +562,10 @@ pub fn run_c05(ctx: &mut Ctx, shard: usize, nshards: usize) {
     let mut s = Src::prng(mix(ctx.seed, 0xc05 + shard as u64));
     for i in 0..n {
         let k = ["tfb-nack", "pfb-pli", "pfb-sli", "pfb-rpsi", "pfb-fir"][i % 5];
-        let c = cfgs::of_kind(&mut s, k, Mix::Valid, 0);
+        let c = cfgs::of_kind(&mut s, k, if i % 20 >= 15 { Mix::Limit } else { Mix::Valid }, 0);
         check(ctx, &c, hows(i));
     }
+    large_and_oversize(ctx, shard, nshards, "pfb-");
     if shard == 1 % nshards && ctx.scale >= 0.5 {
         // dense random sets up to 5000
         let mut s = Src::prng(mix(ctx.seed, 0xc05_5000));
